@@ -756,13 +756,17 @@ func checkMigrate(p *an.Prog, r *an.Run, d *types.Named, kind string, m *ssa.Fun
 			if why != "" {
 				bad = append(bad, why)
 			} else {
-				ro, po := an.RootPath(other)
-				if u, ok := ro.(*ssa.UnOp); ok && u.Op == token.MUL && po == "" {
-					ro, po = an.RootPath(u.X)
-				}
-				tal, _ := ro.(*ssa.Alloc)
 				fromTrial := false
-				if tal != nil && po == ".Credit" {
+				for _, nd := range p.DerivesIn(region, 3, other).Nodes {
+					fa, isFA := nd.(*ssa.FieldAddr)
+					if !isFA {
+						continue
+					}
+					ro, po := an.RootPath(fa)
+					tal, _ := ro.(*ssa.Alloc)
+					if tal == nil || po != ".Credit" || tal == al {
+						continue
+					}
 					for _, tr := range trialR {
 						if kind == "badger" && tr.Val != nil && allocOfValue(tr.Val) == tal {
 							fromTrial = true
@@ -845,37 +849,50 @@ func creditUpdate(p *an.Prog, fn *ssa.Function, al *ssa.Alloc) (ssa.Value, ssa.I
 		}
 		return x, muts[0].(ssa.Instruction), ""
 	case len(muts) == 0 && len(stores) == 1:
-		// value = *fresh where fresh.Add(&al.Credit, x)
-		ld, ok := stores[0].Val.(*ssa.UnOp)
-		if !ok || ld.Op != token.MUL {
-			return nil, nil, "Credit is overwritten with a value that is not a freshly computed sum"
-		}
-		var call ssa.CallInstruction
-		switch src := ld.X.(type) {
-		case *ssa.Call:
-			call = src // new(big.Int).Add(...) returns its receiver
-		case *ssa.Alloc:
-			for _, c := range an.Calls(fn, false) {
-				if an.IsBigIntMutator(c) && len(c.Common().Args) > 0 && c.Common().Args[0] == ssa.Value(src) {
-					if call != nil {
-						return nil, nil, "the fresh sum is written more than once"
-					}
-					call = c
-				}
+		// value = a freshly computed sum: exactly one big.Int Add in its derivation (possibly inside a helper),
+		// one operand being this record's stored Credit, the other the addend
+		dv := p.DerivesDeep(stores[0].Val)
+		var adds []*ssa.Call
+		for _, n := range dv.Nodes {
+			c, ok := n.(*ssa.Call)
+			if !ok || !an.IsBigIntMethod(c) {
+				continue
+			}
+			if an.IsBigIntMethod(c, "Add") {
+				adds = append(adds, c)
+			} else if an.IsBigIntMutator(c) {
+				return nil, nil, "the new Credit is computed with " + an.ObjString(an.CallObj(c)) + ", not a plain sum"
 			}
 		}
-		if call == nil {
-			return nil, nil, "Credit is overwritten with a value that is not a freshly computed sum"
+		if len(adds) != 1 {
+			return nil, nil, "Credit is overwritten with a value that is not a single freshly computed sum (" + itoa(len(adds)) + " additions)"
 		}
-		if rcv, ok := call.Common().Args[0].(*ssa.Alloc); !ok || !rcv.Heap && false {
-			_ = rcv
-			return nil, nil, "the sum is not computed into a fresh big.Int"
+		a := adds[0].Call.Args
+		if len(a) != 3 {
+			return nil, nil, "unrecognised Add"
 		}
-		x, ok := pick(call)
-		if !ok {
-			return nil, nil, "the fresh sum's operands are not (stored Credit, addend)"
+		selfish := func(o ssa.Value) bool {
+			for _, n := range p.DerivesIn(fn, 3, o).Nodes {
+				if _, isFA := n.(*ssa.FieldAddr); isFA && isSelf(n) {
+					return true
+				}
+			}
+			return false
 		}
-		return x, stores[0], ""
+		// the receiver of the Add must be fresh (not the stored record)
+		if selfish(a[0]) && adds[0].Parent() == fn {
+			if r0, _ := an.RootPath(a[0]); r0 == ssa.Value(al) {
+				return nil, nil, "the sum is computed in place on the stored record"
+			}
+		}
+		s1, s2 := selfish(a[1]), selfish(a[2])
+		switch {
+		case s1 && !s2:
+			return a[2], stores[0], ""
+		case s2 && !s1:
+			return a[1], stores[0], ""
+		}
+		return nil, nil, "the fresh sum's operands are not (stored Credit, addend)"
 	case len(muts) == 0 && len(stores) == 0:
 		return nil, nil, "the record's Credit is never updated"
 	}
@@ -888,7 +905,7 @@ func isPlainParam(p *an.Prog, v ssa.Value, prm *ssa.Parameter) bool {
 	if v == ssa.Value(prm) {
 		return true
 	}
-	d := p.Derives(0, v)
+	d := p.DerivesIn(prm.Parent(), 0, v)
 	if !d.HasParam(prm) {
 		return false
 	}
